@@ -268,9 +268,84 @@ def run_mode(chk, replay, mode):
             s = {"sc": sc, "ndims": ndims, "cfgseed": cfgseed, "payload": payload, "sigs": sigs}
             s.update(extra)
             chk.violation(sigs, v, s)
+    if mode == "read" and chk.prop == "C01":
+        reuse_phase(chk, scenarios, world)
+
+
+def reuse_phase(chk, scenarios, world):
+    """Purity of the reader's objects: several selections through ONE selector (pck[fsel]) and ONE stream (pck[fsel][lv])
+    object -- an integer box, then list / slice / mask selections, then the integer box again -- must each equal what
+    ReadSpec says for that selection alone (the requirement operator is a function of (content, fsel, lv, bsel) only: no
+    history).  The expectations are the ones TLC emitted for the single selections."""
+    groups = {}
+    for sc in scenarios:
+        if sc["expect"].get("k") != "ok":
+            continue
+        key = json.dumps([sc["fields"], sc["levels"], sc["fsel"], sc["lv"]], sort_keys=True)
+        groups.setdefault(key, []).append(sc)
+    keys = sorted(k for k, v in groups.items() if len({json.dumps(s["bsel"], sort_keys=True) for s in v}) >= 2)
+    chk.rng.shuffle(keys)
+    n = 0
+    for key in keys[:(150 if chk.tier == "quick" else 1500)]:
+        scs = sorted(groups[key], key=lambda s: (s["bsel"]["k"] not in ("int", "npint"), json.dumps(s["bsel"], sort_keys=True)))
+        # an integer box first (the in-process path), then up to three others, then the first again
+        seq = scs[:1] + chk.rng.sample(scs[1:], min(3, len(scs) - 1)) + scs[:1]
+        ndims = 2 if n % 4 == 3 else 3
+        payload = "wild" if n % 2 == 0 else "tame"
+        cfgseed = chk.rng.randrange(1 << 30)
+        d, ap, reg, pck = world.get(seq[0], ndims, cfgseed, payload)
+        fsel = py_fsel(seq[0]["fsel"])
+        v = None
+        try:
+            with core.quiet():
+                selector = pck[fsel]
+                stream = selector[seq[0]["lv"]]
+        except Exception as e:
+            v = "pck[%r][%r] raised %r" % (fsel, seq[0]["lv"], e)
+        for i, sc in enumerate(seq):
+            if v:
+                break
+            which = stream if i % 2 == 0 else None       # alternately the same stream object and a new stream of the same selector
+            try:
+                with shims.pool_shim(shims.Scheduler()), core.quiet():
+                    st = which if which is not None else selector[sc["lv"]]
+                    r = st[py_bsel(sc["bsel"], i % 2)]
+            except Exception as e:
+                v = "selection %d (%r) on a reused object raised %s: %s" % (i + 1, sc["bsel"], type(e).__name__, str(e)[:120])
+                break
+            if isinstance(r, np.ndarray):
+                obs = {"k": "ok", "one": True, "boxes": [abs_box(r, ap, reg)]}
+            elif isinstance(r, (list, tuple)):
+                obs = {"k": "ok", "one": False, "boxes": [abs_box(a, ap, reg) for a in r]}
+            else:
+                obs = {"k": "other"}
+            diff = core.first_diff(expect_json(sc["expect"]), obs)
+            if diff:
+                v = ("selection %d of %d through one selector / stream object, pck[%r][%r][%r]: %s (earlier selections on the same "
+                     "objects: %r)" % (i + 1, len(seq), fsel, sc["lv"], py_bsel(sc["bsel"]), diff, [s["bsel"] for s in seq[:i]]))
+        sigs = util.sig_str("object-reuse", seq[0]["sig"][1], [s["bsel"]["k"] for s in seq], ndims)
+        chk.executed(sigs, True)
+        chk.traces += 1
+        n += 1
+        if v:
+            chk.violation(sigs, v, {"reuse": True, "seq": seq, "ndims": ndims, "cfgseed": cfgseed, "payload": payload})
 
 
 def run(chk, replay):
+    if replay and replay["scenario"].get("reuse"):
+        s = replay["scenario"]
+        world = World(chk)
+        # re-run the recorded sequence exactly
+        class _R(object):
+            def shuffle(self, x):
+                pass
+
+            def sample(self, x, k):
+                return list(x)[:k]
+
+            def randrange(self, n):
+                return s["cfgseed"]
+        return reuse_phase(chk, s["seq"], world)
     run_mode(chk, replay, "read")
     if not replay:
         # code -> spec: selections recorded on large generated plotfiles and the repository's assets, judged by
